@@ -169,14 +169,19 @@ theorem table_value {env : Env} (hw : EnvWF env) (id : Nat) (f : Func) (hf : env
 
 /-! ### a compiled file's functions mean what the file says -/
 
-/-- name `n` is bound to a function of kind `k` whose value is `(t, b)` -/
-def Good (env : Env) (n : Nat) (v : FKind × List Nat × Bool) : Prop :=
-  ∃ id f, env.lookup (gorules, n) = some id ∧ env.funcs[id]? = some f ∧ f.kind = v.1 ∧
+/-- name `n` is bound — in the engine-wide table (calls) and in the file's own table `own` (rules) — to a
+function of kind `k` whose value is `(t, b)` -/
+def Good (env : Env) (own : List (Nat × Nat)) (n : Nat) (v : FKind × List Nat × Bool) : Prop :=
+  ∃ id f, env.lookup (gorules, n) = some id ∧ ownLookup own n = some id ∧ env.funcs[id]? = some f ∧ f.kind = v.1 ∧
     (table env.funcs.length env.funcs)[id]? = some (.ok (v.2.1, v.2.2))
 
-theorem intended_good {env : Env} (hw : EnvWF env) (ds : List FuncDecl) (base : Nat)
-    (hb : ∀ d ∈ ds, Bound env base d) :
-    ∀ (fuel n : Nat) (v : FKind × List Nat × Bool), intended ds fuel n = some v → Good env n v
+/-- on the names `ds` declares, the file's own table agrees with the engine-wide one -/
+def OwnAgrees (env : Env) (own : List (Nat × Nat)) (ds : List FuncDecl) : Prop :=
+  ∀ d ∈ ds, ∀ id, env.lookup (gorules, d.name) = some id → ownLookup own d.name = some id
+
+theorem intended_good {env : Env} (hw : EnvWF env) (ds : List FuncDecl) (base : Nat) {own : List (Nat × Nat)}
+    (hb : ∀ d ∈ ds, Bound env base d) (hown : OwnAgrees env own ds) :
+    ∀ (fuel n : Nat) (v : FKind × List Nat × Bool), intended ds fuel n = some v → Good env own n v
   | 0, n, v, h => by simp [intended] at h
   | fuel + 1, n, v, h => by
     unfold intended at h
@@ -187,12 +192,13 @@ theorem intended_good {env : Env} (hw : EnvWF env) (ds : List FuncDecl) (base : 
       have hname : d.name = n := by
         have := List.find?_some hd; simpa using this
       obtain ⟨id, cid, h1, _, h3, h4, h5⟩ := hb d hmem
-      rw [hname] at h1
+      have h1o := hown d hmem id h1
+      rw [hname] at h1 h1o
       obtain ⟨tv0, tv1⟩ := table_value hw id _ h3
       split at h
       · rename_i hc
         cases h
-        refine ⟨id, _, h1, h3, rfl, ?_⟩
+        refine ⟨id, _, h1, h1o, h3, rfl, ?_⟩
         have := h4 hc
         subst this
         exact tv0 rfl
@@ -201,13 +207,56 @@ theorem intended_good {env : Env} (hw : EnvWF env) (ds : List FuncDecl) (base : 
         · cases h
         · rename_i kc tc bc hi
           cases h
-          obtain ⟨idc', fc, g1, _, _, g4⟩ := intended_good hw ds base hb fuel c (kc, tc, bc) hi
+          obtain ⟨idc', fc, g1, _, _, _, g4⟩ := intended_good hw ds base hb hown fuel c (kc, tc, bc) hi
           obtain ⟨idc, e1, e2⟩ := h5 c hc
           rw [g1] at e2
           cases e2
           subst e1
-          exact ⟨id, _, h1, h3, rfl, tv1 idc' tc bc rfl g4⟩
+          exact ⟨id, _, h1, h1o, h3, rfl, tv1 idc' tc bc rfl g4⟩
 
+
+/-! ### the file's own table and the engine-wide table agree on the file's names -/
+
+theorem lookup_own_prefix {env' : Env} {own : List (Nat × Nat)} {rest : List ((Nat × Nat) × Nat)}
+    (h : env'.names = own.map (fun x => ((gorules, x.1), x.2)) ++ rest) {n id : Nat}
+    (ho : ownLookup own n = some id) : env'.lookup (gorules, n) = some id := by
+  unfold ownLookup at ho
+  split at ho
+  · rename_i x hx
+    cases ho
+    unfold Env.lookup
+    rw [h, List.find?_append, List.find?_map]
+    have : ((fun x : (Nat × Nat) × Nat => x.1 == (gorules, n)) ∘ fun x : Nat × Nat => ((gorules, x.1), x.2)) =
+        fun x => x.1 == n := by
+      funext y; simp only [Function.comp]; rw [Bool.eq_iff_iff]; simp
+    rw [this, hx]; rfl
+  · cases ho
+
+theorem customFuncs_lookup_some : ∀ (ds : List FuncDecl) (base : Nat) (d : FuncDecl), d ∈ ds →
+    ∃ id, ownLookup (customFuncs base ds) d.name = some id
+  | [], _, _, h => by cases h
+  | d0 :: ds, base, d, h => by
+    simp only [customFuncs]
+    rw [ownLookup_append]
+    cases hl : ownLookup (customFuncs (base + 1) ds) d.name with
+    | some id => exact ⟨id, rfl⟩
+    | none =>
+      rcases List.mem_cons.1 h with rfl | h
+      · exact ⟨base, by simp [ownLookup]⟩
+      · obtain ⟨id, hid⟩ := customFuncs_lookup_some ds (base + 1) d h
+        rw [hl] at hid; cases hid
+
+theorem ownAgrees_of_compile {env e1 : Env} {u : FileUnit}
+    (hc : compileFuncs (env.forget (u.funcs.map fun d => (gorules, d.name))) u.funcs = (e1, .ok ())) :
+    OwnAgrees e1 (ownOf true env u) u.funcs := by
+  intro d hd id hl
+  have hn := compileFuncs_names _ _ _ hc
+  simp only [Env.forget] at hn
+  obtain ⟨id', hid'⟩ := customFuncs_lookup_some u.funcs env.funcs.length d hd
+  have := lookup_own_prefix hn hid'
+  rw [hl] at this
+  cases this
+  simpa [ownOf] using hid'
 
 /-! ### rules -/
 
@@ -219,22 +268,22 @@ def behOf (funcs : List Func) (vals : List Val) (x : Rule) : Option SRule :=
 
 abbrev tbl (env : Env) : List Val := table env.funcs.length env.funcs
 
-theorem getFuncOpt_good {env : Env} (hw : EnvWF env) {n id : Nat} (h : env.lookup (gorules, n) = some id) :
-    getFuncOpt true env gorules (some n) = .ok (some id) := by
-  have := lookup_lt hw h
-  simp [getFuncOpt, getFunc, h, this]
+/-- the repaired loader resolves a rule's function name in the file's own table, whatever `PkgPath` says -/
+theorem getFuncOpt_good (env : Env) {own : List (Nat × Nat)} (pkg : Nat) {n id : Nat} (h : ownLookup own n = some id) :
+    getFuncOpt true env own pkg (some n) = .ok (some id) := by
+  simp [getFuncOpt, ownFunc, h]
 
-theorem loadRule_beh {env : Env} (hw : EnvWF env) (ds : List FuncDecl)
-    (hgood : ∀ fuel n v, intended ds fuel n = some v → Good env n v)
+theorem loadRule_beh {env : Env} {own : List (Nat × Nat)} {pkg : Nat} (ds : List FuncDecl)
+    (hgood : ∀ fuel n v, intended ds fuel n = some v → Good env own n v)
     {g : Nat × Nat} {r : RuleDecl} {x : Rule} {s : SRule}
-    (hl : loadRule true env gorules g r = .ok x) (hi : intendedRule ds g r = some s) :
+    (hl : loadRule true env own pkg g r = .ok x) (hi : intendedRule ds g r = some s) :
     behOf env.funcs (tbl env) x = some s := by
   -- what the file says
   unfold intendedRule at hi
   split at hi <;> try cases hi
   rename_i a m ha hm
   -- the filter function
-  have hf : ∃ fid, getFuncOpt true env gorules r.filtFn = .ok fid ∧ filterAccepts env.funcs (tbl env) fid = .ok a := by
+  have hf : ∃ fid, getFuncOpt true env own pkg r.filtFn = .ok fid ∧ filterAccepts env.funcs (tbl env) fid = .ok a := by
     cases hfn : r.filtFn with
     | none =>
       rw [hfn] at ha
@@ -247,19 +296,19 @@ theorem loadRule_beh {env : Env} (hw : EnvWF env) (ds : List FuncDecl)
       split at ha
       · rename_i t b hin
         cases ha
-        obtain ⟨id, f, h1, h2, h3, h4⟩ := hgood _ _ _ hin
-        refine ⟨some id, getFuncOpt_good hw h1, ?_⟩
+        obtain ⟨id, f, _, h1, h2, h3, h4⟩ := hgood _ _ _ hin
+        refine ⟨some id, getFuncOpt_good env pkg h1, ?_⟩
         simp only [] at h3
         simp only [filterAccepts, h2, h4, h3]
       · rename_i t b hin
         cases ha
-        obtain ⟨id, f, h1, h2, h3, h4⟩ := hgood _ _ _ hin
-        refine ⟨some id, getFuncOpt_good hw h1, ?_⟩
+        obtain ⟨id, f, _, h1, h2, h3, h4⟩ := hgood _ _ _ hin
+        refine ⟨some id, getFuncOpt_good env pkg h1, ?_⟩
         simp only [] at h3
         simp only [filterAccepts, h2, h4, h3]
       · cases ha
   -- the Do function
-  have hd : ∃ did, getFuncOpt true env gorules r.doFn = .ok did ∧
+  have hd : ∃ did, getFuncOpt true env own pkg r.doFn = .ok did ∧
       ∀ y : Rule, y.bucket = r.bucket → y.msg = r.msg → y.doFn = did → message env.funcs (tbl env) y = .ok m := by
     unfold intendedMsg at hm
     split at hm
@@ -269,7 +318,7 @@ theorem loadRule_beh {env : Env} (hw : EnvWF env) (ds : List FuncDecl)
       | none => exact ⟨none, rfl, fun y hy1 hy2 _ => by simp [message, hy1, hy2, hb]⟩
       | some n =>
         -- a comment rule never looks at its Do function, but the loader still resolves the name
-        cases hg : getFuncOpt true env gorules (some n) with
+        cases hg : getFuncOpt true env own pkg (some n) with
         | ok did => exact ⟨did, rfl, fun y hy1 hy2 _ => by simp [message, hy1, hy2, hb]⟩
         | err e => rw [loadRule, hdo, hg] at hl; cases hl
         | panic p => rw [loadRule, hdo, hg] at hl; cases hl
@@ -282,8 +331,8 @@ theorem loadRule_beh {env : Env} (hw : EnvWF env) (ds : List FuncDecl)
         split at hm
         · rename_i t b hin
           cases hm
-          obtain ⟨id, f, h1, h2, h3, h4⟩ := hgood _ _ _ hin
-          refine ⟨some id, by rw [hdo]; exact getFuncOpt_good hw h1, ?_⟩
+          obtain ⟨id, f, _, h1, h2, h3, h4⟩ := hgood _ _ _ hin
+          refine ⟨some id, by rw [hdo]; exact getFuncOpt_good env pkg h1, ?_⟩
           intro y hy1 _ hy3
           simp only [] at h3
           simp [message, hy1, hy3, hb, h2, h4, h3]
@@ -299,9 +348,9 @@ theorem loadRule_beh {env : Env} (hw : EnvWF env) (ds : List FuncDecl)
     have hmsg := hd2 ⟨g, r.line, r.bucket, r.key, r.wild, r.msg, did, fid⟩ rfl rfl rfl
     simp only [behOf, hf2, hmsg]
 
-theorem loadRules_beh {env : Env} (hw : EnvWF env) (ds : List FuncDecl)
-    (hgood : ∀ fuel n v, intended ds fuel n = some v → Good env n v) {g : Nat × Nat} :
-    ∀ {rs : List RuleDecl} {xs : List Rule}, loadRules true env gorules g rs = .ok xs →
+theorem loadRules_beh {env : Env} {own : List (Nat × Nat)} {pkg : Nat} (ds : List FuncDecl)
+    (hgood : ∀ fuel n v, intended ds fuel n = some v → Good env own n v) {g : Nat × Nat} :
+    ∀ {rs : List RuleDecl} {xs : List Rule}, loadRules true env own pkg g rs = .ok xs →
       (∀ r ∈ rs, (intendedRule ds g r).isSome) →
       xs.map (behOf env.funcs (tbl env)) = rs.map (intendedRule ds g)
   | [], xs, h, _ => by simp [loadRules] at h; subst h; rfl
@@ -313,18 +362,18 @@ theorem loadRules_beh {env : Env} (hw : EnvWF env) (ds : List FuncDecl)
     · rename_i ys hys
       cases h
       obtain ⟨s, hs⟩ := Option.isSome_iff_exists.1 (hc r (List.mem_cons_self ..))
-      have := loadRules_beh hw ds hgood hys (fun q hq => hc q (List.mem_cons_of_mem _ hq))
-      simp [loadRule_beh hw ds hgood hx hs, hs, this]
+      have := loadRules_beh ds hgood hys (fun q hq => hc q (List.mem_cons_of_mem _ hq))
+      simp [loadRule_beh ds hgood hx hs, hs, this]
     · rename_i o hne
       cases o <;> simp_all
 
 
 /-! ### groups, units -/
 
-theorem loadGroups_beh {env : Env} (hw : EnvWF env) (ds : List FuncDecl)
-    (hgood : ∀ fuel n v, intended ds fuel n = some v → Good env n v) {pfx file : Nat} {rejected : List (Nat × Nat)} :
+theorem loadGroups_beh {env : Env} {own : List (Nat × Nat)} {pkg : Nat} (ds : List FuncDecl)
+    (hgood : ∀ fuel n v, intended ds fuel n = some v → Good env own n v) {pfx file : Nat} {rejected : List (Nat × Nat)} :
     ∀ {gs : List GroupDecl} {res res' : RuleSet},
-      loadGroups true env gorules pfx file rejected res gs = .ok res' →
+      loadGroups true env own pkg pfx file rejected res gs = .ok res' →
       (∀ g ∈ acceptedDecls pfx rejected gs, ∀ r ∈ g.rules, (intendedRule ds (pfx, g.name) r).isSome) →
       res'.rules.map (behOf env.funcs (tbl env)) = res.rules.map (behOf env.funcs (tbl env)) ++
         (acceptedDecls pfx rejected gs).flatMap (fun g => g.rules.map (intendedRule ds (pfx, g.name)))
@@ -340,7 +389,7 @@ theorem loadGroups_beh {env : Env} (hw : EnvWF env) (ds : List FuncDecl)
         cases h1
         have hrej' : rejected.contains (pfx, g.name) = true := by simpa using hrej
         rw [acceptedDecls_cons_rej hrej'] at hc ⊢
-        exact loadGroups_beh hw ds hgood h hc
+        exact loadGroups_beh ds hgood h hc
       · rename_i hrej
         have hrej' : rejected.contains (pfx, g.name) = false := by simpa using hrej
         rw [acceptedDecls_cons_acc hrej'] at hc ⊢
@@ -348,8 +397,8 @@ theorem loadGroups_beh {env : Env} (hw : EnvWF env) (ds : List FuncDecl)
         · simp at h1
         · split at h1 <;> try cases h1
           rename_i rs hrs
-          have ih := loadGroups_beh hw ds hgood h (fun g' hg' => hc g' (List.mem_cons_of_mem _ hg'))
-          have hr := loadRules_beh hw ds hgood hrs (hc g (List.mem_cons_self ..))
+          have ih := loadGroups_beh ds hgood h (fun g' hg' => hc g' (List.mem_cons_of_mem _ hg'))
+          have hr := loadRules_beh ds hgood hrs (hc g (List.mem_cons_self ..))
           rw [ih]
           simp [hr]
     · rename_i o hne
@@ -363,12 +412,12 @@ theorem rules_acceptedOfUnit (pfx : Nat) (rejected : List (Nat × Nat)) (u : Fil
       (acceptedDecls pfx rejected u.groups).flatMap (fun g => g.rules.map (intendedRule u.funcs (pfx, g.name))) := by
   simp [acceptedOfUnit, acceptedDecls, SGroup.rules, List.flatMap_map]
 
-theorem loadUnit_beh {env : Env} (hw : EnvWF env) {pfx : Nat} {rejected : List (Nat × Nat)} {u : FileUnit}
-    {env1 : Env} {rs : RuleSet} (h : loadUnit true env gorules pfx rejected u = (env1, .ok rs))
+theorem loadUnit_beh {env : Env} (hw : EnvWF env) {pkg pfx : Nat} {rejected : List (Nat × Nat)} {u : FileUnit}
+    {env1 : Env} {rs : RuleSet} (h : loadUnit true env pkg pfx rejected u = (env1, .ok rs))
     (hnd : (u.funcs.map (·.name)).Nodup) (hcl : UnitClosed pfx rejected u) :
     rs.rules.map (behOf env1.funcs (tbl env1)) = (acceptedOfUnit pfx rejected u).flatMap SGroup.rules := by
   have hw1 : EnvWF env1 := by
-    have := (loadUnit_ext true env gorules pfx rejected u).2 hw
+    have := (loadUnit_ext true env pkg pfx rejected u).2 hw
     rw [h] at this; exact this
   unfold loadUnit at h
   split at h
@@ -384,8 +433,9 @@ theorem loadUnit_beh {env : Env} (hw : EnvWF env) {pfx : Nat} {rejected : List (
       have hnone : ∀ d ∈ u.funcs, (env.forget (u.funcs.map fun d => (gorules, d.name))).lookup (gorules, d.name) = none :=
         fun d hd => lookup_forget_mem env _ _ (List.mem_map_of_mem (f := fun d => (gorules, d.name)) hd)
       obtain ⟨_, hb⟩ := compileFuncs_bound u.funcs _ e1 hnd hnone hc
-      have hgood := intended_good hw1 u.funcs _ hb
-      have := loadGroups_beh hw1 u.funcs hgood hg hcl
+      have hown : OwnAgrees e1 (ownOf true env u) u.funcs := ownAgrees_of_compile hc
+      have hgood := intended_good hw1 u.funcs _ hb hown
+      have := loadGroups_beh u.funcs hgood hg hcl
       rw [rules_acceptedOfUnit]
       simpa using this
   · simp at h
@@ -472,16 +522,16 @@ theorem loadBundles_beh {rejected : List (Nat × Nat)} : ∀ {bs : List BundleDe
         rcases o with ⟨e3, o3⟩
         cases o3 <;> simp_all
 
-/-- what a request must satisfy for its rules to have a meaning: converted from source (`PkgPath` is
-"gorules"), no function declared twice in a file, every function a loaded rule uses — directly or through
-calls — declared in the rule's own file (with the right kind) -/
+/-- what a request must satisfy for its rules to have a meaning: no function declared twice in a file, every
+function a loaded rule uses — directly or through calls — declared in the rule's own file (with the right
+kind).  (`PkgPath` is free: the repaired loader no longer looks rule functions up under it.) -/
 def ReqOK (r : Req) : Prop :=
-  r.pkgPath = gorules ∧ UnitOK 0 r.rejected r.unit ∧ ∀ b ∈ r.bundles, ∀ u ∈ b.files, UnitOK b.pfx r.rejected u
+  UnitOK 0 r.rejected r.unit ∧ ∀ b ∈ r.bundles, ∀ u ∈ b.files, UnitOK b.pfx r.rejected u
 
 theorem loadFile_beh {env env' : Env} {r : Req} {rset : RuleSet} (hw : EnvWF env) (hok : ReqOK r)
     (h : loadFile true env r = (env', .ok rset)) :
     rset.rules.map (behOf env'.funcs (tbl env')) = (accepted r).flatMap SGroup.rules := by
-  obtain ⟨hpkg, hunit, hbund⟩ := hok
+  obtain ⟨hunit, hbund⟩ := hok
   unfold loadFile at h
   split at h
   · simp at h
@@ -494,7 +544,6 @@ theorem loadFile_beh {env env' : Env} {r : Req} {rset : RuleSet} (hw : EnvWF env
     split at h
     · rename_i env2 res hu
       rw [hu] at hx
-      rw [hpkg] at hu
       have huu := loadUnit_beh hw1 hu hunit.1 hunit.2
       have hstable := behOf_ext hw1 hx (loadBundles_ids hb)
       split at h
